@@ -375,7 +375,7 @@ def _default_instance(leaf):
 
 # ------------------------------------------------------------------ image matching
 
-def match(exp, act, path='$') -> t.Optional[str]:
+def match(exp, act, path='$', check_set=True) -> t.Optional[str]:
     if isinstance(exp, DcImage):
         cls = grammar.dc_class(exp.leaf) if exp.leaf in grammar.DC_SPECS else None
         if cls is not None and type(act) is not cls:
@@ -383,11 +383,11 @@ def match(exp, act, path='$') -> t.Optional[str]:
         for name, e in exp.fields.items():
             if not hasattr(act, name):
                 return f"{path}.{name}: attribute missing"
-            m = match(e, getattr(act, name), f"{path}.{name}")
+            m = match(e, getattr(act, name), f"{path}.{name}", check_set)
             if m:
                 return m
         got_set = getattr(act, '__pane_set__', None)
-        if got_set is not None and set(got_set) != set(exp.set_fields):
+        if check_set and got_set is not None and set(got_set) != set(exp.set_fields):
             return f"{path}: set-field record {sorted(got_set)} != supplied {sorted(exp.set_fields)}"
         return None
     if type(exp) is not type(act):
@@ -397,7 +397,7 @@ def match(exp, act, path='$') -> t.Optional[str]:
         if len(exp) != len(act):
             return f"{path}: length {len(act)} != {len(exp)}"
         for i, (e, a) in enumerate(zip(exp, act)):
-            m = match(e, a, f"{path}[{i}]")
+            m = match(e, a, f"{path}[{i}]", check_set)
             if m:
                 return m
         return None
@@ -409,7 +409,7 @@ def match(exp, act, path='$') -> t.Optional[str]:
             return f"{path}: keys {list(act.keys())!r} != {list(exp.keys())!r}"
         amap = {values.ckey(kk): x for kk, x in act.items()}
         for kk, e in exp.items():
-            m = match(e, amap[values.ckey(kk)], f"{path}[{kk!r}]")
+            m = match(e, amap[values.ckey(kk)], f"{path}[{kk!r}]", check_set)
             if m:
                 return m
         return None
